@@ -48,6 +48,21 @@ some arm is selected is what the compiler's exhaustiveness check (`missingDefaul
 distinct patterns against the cardinality of the scrutinee type) guarantees -/
 def patsFlat (pats : List Pat) : Bool := pats.all flatPat && !(flattenPats pats).isEmpty
 
+/-- literal patterns without bindings, numbers, strings or structs -/
+def shLit : Expr → Bool
+  | .bool _ | .enumRef _ _ _ | .none => true
+  | .some e | .ok e | .err e => shLit e
+  | _ => false
+
+def shPat : Pat → Bool
+  | .values vs => vs.all shLit
+  | .default => false
+
+/-- every pattern is built from `true`/`false`, enum variants, `None`, `Some(..)`, `Ok(..)`, `Err(..)`; no
+default arm, no binding: that some arm is selected is what the compiler's exhaustiveness check
+(`missingDefault`) guarantees, by counting -/
+def patsSh (pats : List Pat) : Bool := pats.all shPat
+
 /-- the value of a (lowered) literal pattern without struct parts -/
 def litVal : Expr → Option Val
   | .unit => some .unit
@@ -76,7 +91,7 @@ def fragE : Expr → Bool
   | .substruct e _ => fragE e
   | .cast e _ => fragE e
   | .block ss e => fragSs ss && fragE e
-  | .mtch scrut arms => fragE scrut && fragArmsE arms && (patsTotal (patsOfE arms) || patsFlat (patsOfE arms))
+  | .mtch scrut arms => fragE scrut && fragArmsE arms && (patsTotal (patsOfE arms) || patsFlat (patsOfE arms) || patsSh (patsOfE arms))
 def fragPat : Pat → Bool
   | .default => true
   | .values vs => fragArgs vs && (decide (vs.length ≤ 1) || vs.all (fun v => (bindingOf v).isNone))
@@ -98,7 +113,7 @@ def fragS : Stmt → Bool
   | .ifS brs _ els => fragBrs brs && fragSs els
   | .ret e => fragE e
   | .dassert e => fragE e
-  | .mtch scrut arms => fragE scrut && fragArmsS arms && (patsTotal (patsOfS arms) || patsFlat (patsOfS arms))
+  | .mtch scrut arms => fragE scrut && fragArmsS arms && (patsTotal (patsOfS arms) || patsFlat (patsOfS arms) || patsSh (patsOfS arms))
 def fragSs : List Stmt → Bool
   | [] => true
   | s :: ss => fragS s && fragSs ss
